@@ -143,7 +143,7 @@ pub async fn scenario_c07() {
 		for (id, m) in &msgs {
 			let over = m.len() > l;
 			let ws_out = outcome_by_id(&frames, *id);
-			let framing = rt::draw("http_framing", 4);
+			let framing = rt::draw("http_framing", 5);
 			let rep = match framing {
 				0 => world::collect_response(world.tower_call(world::post_request(m.clone())).await).await,
 				1 => {
@@ -151,6 +151,13 @@ pub async fn scenario_c07() {
 					let cut = rt::draw("cut", m.len() as u32 + 1) as usize;
 					let body = ScriptBody::new(vec![(m[..cut].to_vec(), 1), (m[cut..].to_vec(), 0)], None);
 					let req = http::Request::builder().method("POST").uri("/").header("host", "sim.invalid").header("content-type", "application/json").body(body).unwrap();
+					world::collect_response(world.tower_call(req).await).await
+				}
+				4 => {
+					// a buffered body of known size (exact size hint) without a Content-Length header, as an in-process
+					// caller or a body-rewriting middleware produces it
+					rt::probe("buffered_body_without_content_length");
+					let req = http::Request::builder().method("POST").uri("/").header("host", "sim.invalid").header("content-type", "application/json").body(http_body_util::Full::new(bytes::Bytes::from(m.clone()))).unwrap();
 					world::collect_response(world.tower_call(req).await).await
 				}
 				3 => {
@@ -227,6 +234,36 @@ pub async fn scenario_c07() {
 			}
 		}
 		per_world.push(outs);
+		world.drop_stop_handle();
+	}
+	// with server pings on (hook H6) a peer that never answers a ping stays alive through its messages alone: every
+	// message counts as activity, the oversized one that is refused included
+	if rt::chance("ping_timeline", 1, 6) {
+		rt::probe("ping_timeline");
+		let mut world = World::new(SrvCfg { entry, max_req: req_limit, max_resp: resp_a, ping: true, ..Default::default() });
+		world.start().await;
+		let (end, _ctl) = world.connect("wping");
+		if let WsOpen::Open(mut tx, mut rx) = world::ws_handshake(end).await {
+			// (the receiving half is not polled while the timeline runs, so no pong is ever sent)
+			let gap = Duration::from_millis(*rt::pick("gap_ms", &[1200u64, 1500, 1800]));
+			let mut sent_ok = true;
+			for (k, m) in [len_call(1, 60), len_call(2, l + 1 + rt::draw("over_by", 50) as usize), len_call(3, 60)].iter().enumerate() {
+				if k > 0 {
+					tokio::time::sleep(gap).await;
+				}
+				rt::event("ws-send", format!("{} bytes", m.len()));
+				sent_ok &= matches!(tokio::time::timeout(Duration::from_millis(200), world::ws_send(&mut tx, m, false)).await, Ok(Ok(())));
+			}
+			let mut frames: Vec<Vec<u8>> = Vec::new();
+			while let Ok(Some(fr)) = tokio::time::timeout(Duration::from_millis(500), world::ws_recv(&mut rx)).await {
+				frames.push(fr);
+			}
+			let rejects = frames.iter().filter(|fr| matches!(parse_response(fr), Ok((Value::Null, Err(-32007))))).count();
+			if !sent_ok || outcome_by_id(&frames, 3) == Outcome::None || rejects != 1 || outcome_by_id(&frames, 1) == Outcome::None {
+				rt::violate(P, "connection-not-serving", format!("ws:pings:{entry:?}"), format!("pings on, a peer that answers no ping but sends a call, an oversized message and a call {gap:?} apart (inactivity limit 2 s): sends ok={sent_ok}, {rejects} 'request too big' replies, first call {:?}, last call {:?}", outcome_by_id(&frames, 1), outcome_by_id(&frames, 3)));
+			}
+			drop(tx);
+		}
 		world.drop_stop_handle();
 	}
 	// the outcome depends only on the request limit
